@@ -183,6 +183,16 @@ def programs(rng, tier):
         k = rng.randrange(0, 10)
         vs = ["L"] + [str(x) for x in xs]
         P.add([rng.choice(["mk_sat_exactly", "mk_sat_upto"]), str(nv), str(k), vs])
+    # longer lists, every k of the middle range (and k = length, length +- 1), sorted / reverse-sorted / shuffled lists, over more
+    # variables than listed (levels are skipped)
+    for _ in range(30 if tier == "quick" else 600):
+        nv = rng.choice([12, 16, 20, 33, 40])
+        xs = rng.sample(range(nv), rng.randrange(9, 13))
+        order = rng.choice(["sorted", "reversed", "shuffled"])
+        xs = sorted(xs) if order == "sorted" else sorted(xs, reverse=True) if order == "reversed" else xs
+        vs = ["L"] + [str(x) for x in xs]
+        for k in sorted({rng.randrange(2, len(xs) - 1), len(xs) // 2, len(xs) - 1, len(xs), len(xs) + 1}):
+            P.add([rng.choice(["mk_sat_exactly", "mk_sat_upto"]), str(nv), str(k), vs])
     # a listed variable outside the set: outside the quantifier, recorded only
     # thresholds far above the list length, around the u16 boundary (the library iterates k rounds: keep these few)
     for k in ((65535, 65536, 65537) if tier == "quick" else (65535, 65536, 65537, 65538, 131072, 131073, 70000)):
